@@ -171,6 +171,8 @@ func (o *c08Obs) after(seq uint64, node, op, arg, result string) {
 		} else if result == "ok" {
 			o.renewFails[node] = 0
 		}
+	case "foreign-key-delete":
+		o.c.Violate("C08/foreign-lease-destroyed", fmt.Sprintf("seq %d: %s deleted the primary key of lease %s while the lease service records %s as its holder: a node destroys its own lease, never another node's", seq, node, arg, strings.TrimPrefix(result, "holder:")), o.tail())
 	case "lease-close":
 		o.closed[node]++
 		if o.handedOff[node] {
